@@ -1,4 +1,7 @@
 CONSTANT InPlaceMutation = TRUE
+CONSTANT DeadlineOnProcessClock = FALSE
+CONSTANT AgeLimit = 2
+CONSTANT MaxAge = 0
 CONSTANT ModelReused = TRUE
 CONSTANT MaxLen = 3
 SPECIFICATION Spec
